@@ -5,9 +5,11 @@ package main
 // handlers made to panic by short lines (zero-argument ones included: PING, 433, CAP, JOIN).
 // The connection stays up; every line must be delivered.
 //
-// Every session runs in a CHILD process (this binary re-executed as "h C16child"): a panic that
-// escapes the recovery function kills the whole process, and that must become an observation
-// ("dead" + the first line of the crash report), not the death of the harness.
+// Every session of C03 / C05 / C16 runs in a CHILD process (this binary re-executed as
+// "h DSPchild", one session per process): a panic that escapes the recovery function kills the
+// whole process, and that must become an observation ("dead" + the first line of the crash
+// report), not the death of the harness; and nothing of one session (a background handler that
+// starts or panics late, its log records, GOMAXPROCS) can leak into the next one.
 
 import (
 	"bufio"
@@ -20,9 +22,9 @@ import (
 )
 
 func init() {
-	props["C16"] = &Prop{Gen: c16Gen, Exec: c16RunChild, Class: dspClass}
-	props["C16child"] = &Prop{
-		Gen:  func(r *Rand, tier string, scale int, emit func(Fields)) { c16ChildMain() },
+	props["C16"] = &Prop{Gen: c16Gen, Exec: dspRunChild, Class: dspClass}
+	props["DSPchild"] = &Prop{
+		Gen:  func(r *Rand, tier string, scale int, emit func(Fields)) { dspChildMain() },
 		Exec: func(in Fields) Fields { return F("bad") },
 	}
 }
@@ -59,7 +61,7 @@ func c16Gen(r *Rand, tier string, scale int, emit func(Fields)) {
 	}
 }
 
-func c16ChildMain() {
+func dspChildMain() {
 	sc := bufio.NewScanner(os.Stdin)
 	sc.Buffer(make([]byte, 1<<20), 1<<28)
 	if !sc.Scan() {
@@ -74,12 +76,12 @@ func c16ChildMain() {
 	fmt.Println("OBS " + obs.String())
 }
 
-func c16RunChild(in Fields) Fields {
+func dspRunChild(in Fields) Fields {
 	exe, err := os.Executable()
 	if err != nil {
 		exe = os.Args[0]
 	}
-	cmd := exec.Command(exe, "C16child")
+	cmd := exec.Command(exe, "DSPchild")
 	cmd.Stdin = strings.NewReader(in.String() + "\n")
 	var out, errb bytes.Buffer
 	cmd.Stdout = &out
